@@ -316,14 +316,14 @@ def in_domain(vals):
     return all(v[0] in ("Bits", "Str") or in_range(v[0], v[1]) for v in vals)
 
 
-def payload_case(bo, wo, vals, label=None):
-    obs = run_impl(bo, wo, vals)
+def payload_case(bo, wo, vals, label=None, repack=False):
+    obs = run_impl(bo, wo, vals, repack=repack)
     dom = in_domain(vals)
-    desc = {"byteorder": bo, "wordorder": wo, "values": [[v[0], v[1]] for v in vals],
+    desc = {"byteorder": bo, "wordorder": wo, "repack": repack, "values": [[v[0], v[1]] for v in vals],
             "impl": {k: list(v) for k, v in obs.items()}}
-    kind = label or ("%s/%s:%s" % (bo, wo, "domain" if dom else "malformed"))
-    return Case(case_term(bo, wo, False, vals, obs), desc, kind=kind, nontrivial=dom and len(vals) > 0,
-                key=(bo, wo, repr(vals)))
+    kind = label or ("%s/%s:%s%s" % (bo, wo, "domain" if dom else "malformed", "+repack" if repack else ""))
+    return Case(case_term(bo, wo, repack, vals, obs), desc, kind=kind, nontrivial=dom and len(vals) > 0,
+                key=(bo, wo, repack, repr(vals)))
 
 
 FIXED = [
@@ -356,12 +356,17 @@ def suite_payload(tier):
         for x in xs:
             for bo, wo in ORDERS:
                 cases.append(payload_case(bo, wo, [(k, x)]))
-    n = 450 if tier == "quick" else 20000
+    n = 2500 if tier == "quick" else 20000
     for i in range(n):
         vals = gen_sequence(r, malformed=(r.random() < 0.05))
         for bo, wo in ORDERS:
             cases.append(payload_case(bo, wo, vals))
-    return Suite("payload", IMPORTS, "chk_payload code", cases, shard=200 if tier == "quick" else 400)
+    # builder option repack=True (non-default, outside the property): model agreement only
+    for i in range(40 if tier == "quick" else 1000):
+        vals = gen_sequence(r, malformed=False)
+        for bo, wo in ORDERS:
+            cases.append(payload_case(bo, wo, vals, repack=True))
+    return Suite("payload", IMPORTS, "chk_payload code", cases, shard=320 if tier == "quick" else 500)
 
 
 def decode_case(r):
@@ -400,15 +405,6 @@ def classify(suite, desc):
 
 
 def replay_finding(f):
-    w = f.get("witness") or {}
-    if f["id"] == "F-C19-fromcoils-wordorder":
-        vals = [tuple(v) for v in w["values"]]
-        obs = run_impl(w["byteorder"], w["wordorder"], vals)
-        return obs["dec_coils"] != ("ok", [(v[0], v[1]) for v in vals])
-    if f["id"] == "F-C19-repack-little":
-        vals = [tuple(v) for v in w["values"]]
-        obs = run_impl(w["byteorder"], w["wordorder"], vals, repack=True)
-        return obs["dec_regs"] != ("ok", [(v[0], v[1]) for v in vals])
     return None
 
 
@@ -441,7 +437,7 @@ def replay_case(suite, desc):
     print(json.dumps(desc)[:2000])
     if suite == "payload":
         vals = [tuple(v) for v in desc["values"]]
-        c = payload_case(desc["byteorder"], desc["wordorder"], vals)
+        c = payload_case(desc["byteorder"], desc["wordorder"], vals, repack=desc.get("repack", False))
         res = coqrun.eval_cases("C19_replay", IMPORTS, "chk_payload code", [c.term])
         print("now:", c.desc["impl"], res)
         return bool(res["propfail"] or res["errors"])
